@@ -53,7 +53,13 @@ def run(ctx, build, verdict, ev):
             zs = []
             for y, klass in ys:
                 with np.errstate(all="ignore"):
-                    z = float(real.tsukamoto(y))
+                    try:
+                        z = float(real.tsukamoto(y))
+                    except Exception as ex:  # noqa
+                        verdict.add_violation(f"{name}:exception", f"{name}{p}.tsukamoto({y!r}) raises {type(ex).__name__}: {ex}", {"term": name, "params": p, "y": y})
+                        nviol += 1
+                        zs.append(math.nan)
+                        continue
                     vlib.RECORDER.reset()
                     zc = float(clone.tsukamoto(y))
                     tbl = vlib.RECORDER.take()
